@@ -67,3 +67,6 @@ impl fmt::Write for CString {
         Ok(())
     }
 }
+
+#[cfg(kani)]
+pub(crate) mod verif_kani;
